@@ -15,7 +15,7 @@ package fsnotify
 //@ func (w *shared) sendEvent(e Event) (ok bool)
 //@   requires token(reader)                                                         [C03 C06] "only the reader goroutine sends"
 //@   requires w.Events != nil && !closed(w.Events)                                  [C06] "nothing is sent on a closed channel"
-//@   requires nolocks() || closed(w.done)                                           [C05] "a send that may block is made without holding a lock"
+//@   requires nolocks() || closed(w.done)                                           [C05 C06 C13] "a send that may block is made without holding a lock (otherwise Close, which needs the lock to release it, can never finish)"
 //@   ensures  e.Op == 0 ==> ok && hist(w.Events) == old(hist(w.Events))             [C02] "an empty operation set is never delivered"
 //@   ensures  e.Op != 0 && ok ==> hist(w.Events) == snoc(old(hist(w.Events)), e)    [C01 C03 C14] "the event is delivered: blocking send, never dropped"
 //@   ensures  e.Op != 0 && !ok ==> closed(w.done) && hist(w.Events) == old(hist(w.Events))   [C01 C05 C13] "the only way not to deliver is a closed watcher"
@@ -25,7 +25,7 @@ package fsnotify
 //@ func (w *shared) sendError(err error) (ok bool)
 //@   requires token(reader)                                                         [C06]
 //@   requires w.Errors != nil && !closed(w.Errors)                                  [C06]
-//@   requires nolocks() || closed(w.done)                                           [C05]
+//@   requires nolocks() || closed(w.done)                                           [C05 C06 C13] "a send that may block is made without holding a lock"
 //@   ensures  err == nil ==> ok && hist(w.Errors) == old(hist(w.Errors))            [C10]
 //@   ensures  err != nil && ok ==> hist(w.Errors) == snoc(old(hist(w.Errors)), err) [C01 C10] "the error is delivered on Errors"
 //@   ensures  err != nil && !ok ==> closed(w.done) && hist(w.Errors) == old(hist(w.Errors))  [C05 C10 C13]
